@@ -91,7 +91,11 @@ fn build(variant: u64) -> UserModel<'static> {
     let _ = um.set_user_input(2, 1, 5, "=Aux!A1+1.5");
     // more shapes for the tie of the rename pass (not part of the values view)
     for (i, f) in ["=IF(G_cell>1,SUM(G_range,g_cell),-L_cell)", "=LET(a,G_cell,a+inc(G_CELL))", "=LAMBDA(q,q+G_cell)(1)", "={1,2}+G_cell", "=@G_range", "=G_cell%+G_cell^2",
-                   "=G_cell&L_cell&\"G_cell\"", "=SUM(G_range:G_cell)", "=unknownfn(G_cell,,tot(G_cell))", "=G_cell=L_cell", "=-G_cell*(G_cell-1)/G_cell", "=Sheet1!A1+G_cell"].iter().enumerate() {
+                   "=G_cell&L_cell&\"G_cell\"", "=SUM(G_range:G_cell)", "=unknownfn(G_cell,,tot(G_cell))", "=G_cell=L_cell", "=-G_cell*(G_cell-1)/G_cell", "=Sheet1!A1+G_cell",
+                   // the name as the RIGHT operand of every binary node kind and under a unary one (a pass that
+                   // visits one child twice and the other never is invisible when the name is on the left only)
+                   "=2^G_cell", "=1-G_cell", "=1/G_cell", "=2*G_cell", "=1&G_cell", "=1<>G_cell", "=-G_cell", "=G_cell%",
+                   "=SUM(1,2^(G_cell+1))", "=IF(1,2,G_cell)^L_cell", "=Sheet1!A1:G_cell", "=SUM(G_cell:Sheet1!B2)"].iter().enumerate() {
         let _ = um.set_user_input(0, 1 + i as i32, 6, f);
     }
     um.evaluate();
